@@ -1,6 +1,7 @@
 package verify
 
 import (
+	"crypto/sha256"
 	"crypto/x509"
 
 	pb "github.com/google/go-tdx-guest/proto/tdx"
@@ -52,18 +53,24 @@ func ownQeReport(r *pb.EnclaveReport) []byte {
 	return out
 }
 
+// sha256of: the specification's SHA-256 (crypto/sha256; in the engine a model hash function).
+func sha256of(b []byte) []byte {
+	d := sha256.Sum256(b)
+	return d[:]
+}
+
 // links01: the three links of the statement as terms over the stub functions.
 func links01(quote *pb.QuoteV4, leaf *x509.Certificate) (sigOK, bindOK, qeSigOK bool) {
 	sd := quote.SignedData
 	qr := sd.CertificationData.QeReportCertificationData
 	key, sig := sd.EcdsaAttestationKey, sd.Signature
 	// 1. header||body signed (ECDSA P-256 over SHA-256) by the attestation key in the quote
-	digest := vp.UFBytes("SHA256", 32, ownHeaderBody(quote))
+	digest := sha256of(ownHeaderBody(quote))
 	sigOK = vp.And(vp.UFBool("OnCurveP256", key[0:32], key[32:64]),
 		vp.UFBool("ECDSA_P256", key[0:32], key[32:64], digest, sig[0:32], sig[32:64]))
 	// 2. QE report data = SHA-256(attestation key || QE auth data) || 0^32
 	concat := append(append([]byte(nil), key...), qr.QeAuthData.Data...)
-	h := vp.UFBytes("SHA256", 32, concat)
+	h := sha256of(concat)
 	bindOK = vp.BytesEq(qr.QeReport.ReportData[0:32], h)
 	for i := 32; i < 64; i++ {
 		bindOK = vp.And(bindOK, qr.QeReport.ReportData[i] == 0)
@@ -135,4 +142,37 @@ func H01h_NoUnsignedBitsInAcceptedMessage() {
 		quote.SignedData.CertificationData.CertificateDataType == 6,
 		quote.SignedData.CertificationData.QeReportCertificationData.PckCertificateChainData.CertificateDataType == 5,
 		quote.SignedData.CertificationData.QeReportCertificationData.QeAuthData.ParsedDataSize == 0)))
+}
+
+// H01i: histories on ONE message and ONE options value. After an accepted verification the caller
+// changes the message in place (body, header, key, QE report, auth data: any of them) and verifies
+// it again with the same options: it is judged on what it now contains.
+func H01i_SameMessageModifiedAndReverified() {
+	w := mkPKI(0, nil)
+	quote := mkQuote(w, 32)
+	opts := &Options{Now: symTimeSet("t")}
+	if TdxQuote(quote, opts) != nil {
+		return
+	}
+	vp.Reach("first-accepted", true)
+	qr := quote.SignedData.CertificationData.QeReportCertificationData
+	switch vp.Choose("modifiedRegion", 5) {
+	case 0:
+		quote.TdQuoteBody.ReportData = vp.Bytes("new_report_data", 64)
+	case 1:
+		quote.Header.UserData = vp.Bytes("new_user_data", 20)
+	case 2:
+		quote.SignedData.EcdsaAttestationKey = vp.Bytes("new_key", 64)
+	case 3:
+		qr.QeReport.MrEnclave = vp.Bytes("new_mrenclave", 32)
+	case 4:
+		qr.QeAuthData.Data = vp.Bytes("new_auth", 32)
+	}
+	err := TdxQuote(quote, opts)
+	sigOK, bindOK, qeSigOK := links01(quote, w.leaf)
+	vp.Reach("re-verification-accepted", err == nil)
+	vp.Reach("re-verification-rejected", err != nil)
+	vp.Assert("re-verified-implies-quote-signed-by-attestation-key", vp.Implies(err == nil, sigOK))
+	vp.Assert("re-verified-implies-report-data-binds-key-and-auth-data", vp.Implies(err == nil, bindOK))
+	vp.Assert("re-verified-implies-qe-report-signed-by-leaf-key", vp.Implies(err == nil, qeSigOK))
 }
